@@ -57,7 +57,15 @@ def shape(rng, w, nv):
         return ["bvv", rng.choice(pool) & ((1 << width) - 1), width]
 
     cmp_ = rng.choice(G.CMP_ALL)
-    s = rng.randrange(22)
+    s = rng.randrange(26)
+    if s >= 22:
+        # a left shift whose shifted-out bits are provably zero (the only case in which the balancer removes it), against
+        # constants that are and are not multiples of the shift
+        n = rng.choice([1, 2, 3])
+        sh = rng.randrange(1, n + 1)
+        inner = rng.choice([["zext", n, x], ["concat", ["bvv", 0, n], x], ["zext", n, ["and", x, ["bvv", m >> 1, w]]]])
+        kk = rng.choice([rng.getrandbits(w + n), (rng.getrandbits(w) << sh) & ((1 << (w + n)) - 1), 1, (1 << sh) - 1, 1 << sh, (1 << sh) + 1, (1 << (w + n)) - 1])
+        return [cmp_, ["shl", inner, ["bvv", sh, w + n]], ["bvv", kk, w + n]]
     if s == 0:
         lhs = x
     elif s == 1:
@@ -214,6 +222,26 @@ def run_case(res, rng, d, anns):
                 res.count("replacement_add_raised")
                 res.setadd("replacement_add_raised", f"{cls_name}:{type(e).__name__}:{str(e)[:80]}")
                 continue
+            # bounds derived on a branch are that branch's: the solver it was branched from (which never saw the
+            # constraint) must still allow every value of the declared ranges
+            try:
+                parent = claripy.SolverHybrid() if cls_name == "hybrid" else claripy.SolverReplacement(claripy.SolverVSA(), replace_constraints=True, complex_auto_replace=True)
+                for name in anns:
+                    parent.eval(var_asts[name][-1], 2, **({"exact": False} if cls_name == "hybrid" else {}))
+                child = parent.branch()
+                child.add([ast])
+                kwp = {"exact": False} if cls_name == "hybrid" else {}
+                for name, (w, t) in anns.items():
+                    leaf = var_asts[name][-1]
+                    allv = {env[name] for env in envs}
+                    mx, mn = parent.max(leaf, **kwp), parent.min(leaf, **kwp)
+                    res.count("branch_parent_probes")
+                    if mx < max(allv) or mn > min(allv):
+                        viol(res, f"{cls_name}-bound-of-a-branch-reached-its-parent", case, variable=name, observed=[mn, mx], expected=[min(allv), max(allv)])
+                        return
+            except claripy.errors.ClaripyError as e:
+                res.count("replacement_branch_raised")
+                res.setadd("replacement_branch_raised", f"{cls_name}:{type(e).__name__}:{str(e)[:80]}")
             for name, (w, t) in anns.items():
                 leaf = var_asts[name][-1]
                 feas = {env[name] for env in models}
